@@ -8,7 +8,7 @@ v4 part of C14.
     constructor in pair mode under the fork assumption, on the *effective* spelling of v4 vectors
     (the 11 base metrics, E, CR, IR, AR, and MSI/MSA - needed to reach Safety; every other
     Modified metric absent: by C06 the score depends on effective values only).
-    quick tier: a seeded subset of the forks; thorough tier: all 270.
+    Both tiers: a seeded sample of (fork, step) cases (quick 14, thorough 84).
 """
 
 import random
